@@ -83,10 +83,17 @@ def oracleC02 (txs : List (List Byte)) (bursts : List SBurst) (outs : List Out) 
   let soms := outs.filter (fun o => match o.msg with | .som .. => true | _ => false)
   let eoms := outs.filter (fun o => o.msg == .eom)
   let hText : List Byte := txs.headD []
+  -- the one known way the text can differ (F7): bytes voted AFTER the end of the header (link-layer
+  -- garbage of the intact bursts against the corrupted burst) read `x…-` and the greedy callsign
+  -- match `.{3,8}-` swallows them
+  let extended := soms.any (fun o => match o.msg with
+    | .som t _ _ => t.length > hText.length ∧ t.take hText.length == hText ∧ t.getLast? == some 45
+    | _ => false)
+  let diagExt := if extended then " [cause: voted bytes after the end of the header extended the greedy callsign match]" else ""
   if hs.length ≥ 2 ∧ soms.length != 1 then
-    some s!"two header bursts arrived intact but {soms.length} StartOfMessage were reported"
+    some s!"two header bursts arrived intact but {soms.length} StartOfMessage were reported{diagExt}"
   else if hs.length ≥ 2 ∧ !(soms.all (fun o => match o.msg with | .som t _ _ => t == hText | _ => false)) then
-    some "two header bursts arrived intact but the reported text is not the transmitted header"
+    some s!"two header bursts arrived intact but the reported text is not the transmitted header{diagExt}"
   else if tx1.length ≤ 1 ∧ soms.length != 0 then
     some "a header heard in only one burst was reported"
   else if es.length ≥ 2 ∧ eoms.length != 1 then
@@ -167,17 +174,16 @@ def oracleC08 (bursts : List SBurst) (outs : List Out) : Option String :=
     | .eom =>
       if bursts.any (fun b => b.t == o.t) then none
       else some s!"EndOfMessage at tick {o.t} was not reported by the call that assembled a burst"
-    | .som text _ _ =>
-      -- the last burst at or before the report that carries this text (after masking, as a prefix)
-      let carriers := bursts.filter (fun b => b.t ≤ o.t && (b.bytes.take text.length).map msk == text)
-      match carriers.getLast? with
-      | none => none
+    | .som _ _ _ =>
+      -- the estimate that is reported was accepted by the call that assembled some burst: the
+      -- last burst at or before the report (any burst can complete a vote)
+      match (bursts.filter (fun b => b.t ≤ o.t)).getLast? with
+      | none => some s!"StartOfMessage at tick {o.t} without any burst before it"
       | some last =>
         -- quiet channel: no busy window and no burst in (last.t, last.t + HOLD]
         let quiet := bursts.all (fun b => b.t ≤ last.t || b.t - b.busy ≥ last.t + HOLD + 1)
         if quiet ∧ o.t > last.t + HOLD then
-          let stale := outs.any (fun p => p.t < o.t ∧ p.t + HIST ≤ o.t ∧ outText p == some text)
-          some s!"StartOfMessage reported {o.t - last.t} ticks after its last burst on a quiet channel (hold is {HOLD}){if stale then " [cause: stale history outlived the duplicate-suppression entry]" else ""}"
+          some s!"StartOfMessage reported {o.t - last.t} ticks after the last burst on a quiet channel (hold is {HOLD})"
         else none
     | .err => none)
 
